@@ -293,7 +293,8 @@ def run_remote(ctx, idx, rng, tmp):
     import dclab
     from dclab.rtdc_dataset import fmt_http
     from vmon.gen import dataset as gd
-    from vmon.httpsrv import RangeServer
+    from vmon.httpsrv import RangeServer, relax_timeouts
+    relax_timeouts()
     n = int(rng.integers(2, 8))
     srv = RangeServer()
     try:
